@@ -135,3 +135,8 @@ V('C07', 'when-condition-only-with-using', 'edb/edgeql/compiler/policies.py',
     else:
         expr = qlast.Constant.boolean(True)
 ''', 'C07.R10', 'when-condition-always-applied')
+
+# round 5: the stored seeded breaks this property's check reports, replayed as variants
+from sa.selftest import VP  # noqa
+VP('C07', 'C07-e1', 'C07.R11', 'compound-members')
+VP('C07', 'C07-e3', 'C07.R12', 'no-descendants')
